@@ -655,10 +655,10 @@ func (s *Sim) call(fr *frame, t *Trace, x *ssa.Call) []string {
 	}
 	callees := s.P.CalleesOf(x)
 	name := "dynamic"
-	if len(callees) == 1 {
-		name = s.P.FuncName(callees[0])
-	} else if com.IsInvoke() {
+	if com.IsInvoke() {
 		name = "invoke:" + com.Method.Name()
+	} else if len(callees) == 1 {
+		name = s.P.FuncName(callees[0])
 	}
 	if s.Assume[name] && len(com.Args) == 1 {
 		if r, ok := s.condRel(fr, t, com.Args[0]); ok {
